@@ -217,11 +217,30 @@ def workload(ctx):
                  [a, a, a, 109.47122063449069, 109.47122063449069, 109.47122063449069], [a, cc, cc, 90.0, 90.0, 90.0],
                  [4.05, 4.05, 4.05, 90.0, 90.0, 90.0], [a, a, a, 75.0, 75.0, 75.0]][int(rng.integers(8))]
         else:
-            base = reducedish(rng)
-            while True:
-                M = rng.integers(-1, 2, (3, 3))
-                if abs(round(np.linalg.det(M))) == 1:
-                    break
+            # a reduced lattice (oblique, or cubic / tetragonal / orthorhombic) described in another basis: entries up to 3 in modulus,
+            # half of them products of elementary shears (not triangular, not a permutation)
+            j = int(rng.integers(4))
+            if j == 0:
+                a, b, cc = (float(x) for x in np.sort(rng.uniform(3, 9, 3)))
+                base = [[a, a, a], [a, a, cc], [a, b, cc]][int(rng.integers(3))] + [90.0, 90.0, 90.0]
+            else:
+                base = reducedish(rng)
+            if rng.random() < 0.5:
+                while True:
+                    M = rng.integers(-1, 2, (3, 3))
+                    if abs(round(np.linalg.det(M))) == 1:
+                        break
+            else:
+                while True:
+                    M = np.eye(3, dtype=int)
+                    for _ in range(int(rng.integers(2, 6))):
+                        E = np.eye(3, dtype=int)
+                        r, q = rng.choice(3, 2, replace=False)
+                        E[r, q] = int(rng.choice([-2, -1, 1, 2]))
+                        M = M @ E
+                    M = M[:, rng.permutation(3)]
+                    if np.max(np.abs(M)) <= 3:
+                        break
             G = M.T @ oracle.metric(base) @ M
             c = oracle.cell_from_metric(G)
             if oracle.gram_det_angular(c) < 0.02:
